@@ -209,9 +209,10 @@ class d3TimeScaleMilliseconds(object):
             map(
                 milli2dt,
                 range(
-                    math.ceil(int(start.timestamp() * 1000) / step) * step,
+                    math.ceil(int(start.timestamp() * 1000) / int(step))
+                    * int(step),
                     int(stop.timestamp() * 1000),
-                    step,
+                    int(step),
                 ),
             )
         )
